@@ -192,9 +192,10 @@ func Plan(tier string) *harness.Plan {
 	thorough := tier == "thorough"
 	t := bx.Tier{PN: 3, SK: 0, LASCII: 3, LUTF8: 2, LRaw: 2, EmbedW: -1, TokL: 3, TokN: 5, SeedEmbW: -1, SeedEmbFirst: 1000, SeedTokL: 4, SeedTokN: 6, Budget: 150 * time.Second}
 	if thorough {
-		// plus every 4-node pattern on ASCII haystacks of <= 2 symbols and the one-edit seed neighbourhoods on their
-		// token words (a superset of the quick space), under the larger configuration list
-		t.PN, t.HugePN, t.LHuge, t.SK, t.SeedEmbFirst, t.Budget = 4, 3, 2, 1, len(space.Seeds), 25*time.Minute
+		// plus the one-edit seed neighbourhoods on their token words (a superset of the quick space), under the larger
+		// configuration list. (Every 4-node pattern was tried and dropped: a quarter of all (pattern, haystack) pairs
+		// hits one of the open engine-contract findings of §10.4, which made the known-finding set 4 million cases.)
+		t.SK, t.SeedEmbFirst, t.Budget = 1, len(space.Seeds), 25*time.Minute
 	}
 	sp := bx.NewSpace(t)
 	cfgs := lazyConfigs(thorough)
